@@ -23,7 +23,7 @@ REQUIRED = ["payload_only_in_payload_msg", "private_payload_release_sound", "dec
             "connection_authenticated_only_via_authenticator", "fact_authenticate_call_sites",
             "created_private_has_full_pal", "fact_encrypt_and_authenticator_stateless",
             "fact_payload_presence_guards", "public_tx_admitted_only_with_payload",
-            "offloaded_certificate_needs_exactly_one_value", "fact_offloading_header_checks", "offloaded_identity_is_this_streams_header", "offloaded_streams_independent", "fact_offloading_authinfo_overwritten", "authenticated_with_proven_certificate", "decryptPAL_depends_only_on_keys_and_header", "header_prefix_does_not_determine_list", "fact_sent_envelopes_fresh", "fact_decryptPAL_stateless"]
+            "offloaded_certificate_needs_exactly_one_value", "fact_offloading_header_checks", "known_transaction_writes_no_payload", "known_transaction_keeps_payload_store", "fact_state_add_present_branch_writes_nothing", "offloaded_identity_is_this_streams_header", "offloaded_streams_independent", "fact_offloading_authinfo_overwritten", "authenticated_with_proven_certificate", "decryptPAL_depends_only_on_keys_and_header", "header_prefix_does_not_determine_list", "fact_sent_envelopes_fresh", "fact_decryptPAL_stateless"]
 
 
 def run(ctx):
@@ -146,12 +146,17 @@ def run(ctx):
     for c in stores:
         should = c["tx_known"] and c["matches"]
         okc = (c["after"] == (c["before"] or should)) and not c["other_changed"]
-        sk[("known" if c["tx_known"] else "unknown", "match" if c["matches"] else "mismatch", "stored" if c["after"] and not c["before"] else "unchanged")] += 1
+        sk[("known" + ("-via-list" if c.get("via") else "") if c["tx_known"] else "unknown", "match" if c["matches"] else "mismatch", "stored" if c["after"] and not c["before"] else "unchanged")] += 1
         if not okc:
             s_bad += 1
             if s_bad > 1:
                 continue
             v = by_name.get(c["scenario"])
+            if c.get("via") == "tl":
+                ctx.violation("C15:unverified-payload-stored-for-known-private-transaction", "a TransactionList carrying a private transaction that is ALREADY on the DAG (payload not yet "
+                              f"received) together with bytes that do not hash to its payload hash made node {c['node']} store those bytes as the transaction's payload: {json.dumps(c)}",
+                              "payload-store-via-list.jsonl", replay_text(ops, header, v["first_op"], c["op"]) if v else json.dumps(c))
+                continue
             ctx.violation("C15:payload-store-changed-wrongly", f"payload store after TransactionPayload: {json.dumps(c)}", "payload-store.jsonl",
                           replay_text(ops, header, v["first_op"], c["op"]) if v else json.dumps(c))
     ctx.oblige("oracle:payload-stored-iff-tx-present-and-hash-matches(impl)", s_bad == 0, f"{s_bad} of {len(stores)}")
